@@ -28,6 +28,18 @@ class _MyInt(int):
     pass
 
 
+class _Raw(str):
+    """a str whose repr is its own text: rendering it through repr() would paste the text into the generated source (C19)"""
+
+    def __repr__(self):
+        return str(self)
+
+
+class _Meters(int):
+    def __repr__(self):
+        return f"{int(self)} m"
+
+
 def _same(a, b):
     """equal, of exactly the same type, recursively"""
     if type(a) is not type(b):
@@ -55,7 +67,7 @@ class _Unevaluable:
 def _eval(text):
     try:
         return eval(text, {"__builtins__": builtins})  # noqa: S307
-    except Exception:  # noqa: BLE001
+    except BaseException:  # noqa: BLE001
         return _Unevaluable()
 
 
@@ -64,9 +76,9 @@ POST = {
     "raises-nothing": "returned",
     "evaluates-back": "implies(returned and result is not None, py(lambda o, r: type(r) is str and SAME(EVAL(r), o), obj, result))",
 }
-CP = {"raises-nothing": ["C08"], "evaluates-back": ["C08"], "modifies-nothing": ["C20"]}
+CP = {"raises-nothing": ["C08", "C19"], "evaluates-back": ["C08", "C19"], "modifies-nothing": ["C20"]}
 
-contract(F, "get_literal_expr", name=f"{F}:get_literal_expr[leaf]", props=["C08", "C20"], params={"obj": "D"},
+contract(F, "get_literal_expr", name=f"{F}:get_literal_expr[leaf]", props=["C08", "C19", "C20"], params={"obj": "D"},
          requires=["py(lambda o: type(o) not in (list, tuple, set, frozenset, dict, slice, range), obj)"],
          prefer_shadow=True, post=POST, clause_props=CP, consts=CONSTS, cover=["returned and result is None",
                                                                              "returned and result is not None"],
@@ -83,10 +95,11 @@ SHAPES = {
     "dict0": {}, "dict2": {"a": 1, 2: [True]}, "dict-lookalike": {Decimal(0): _P.ZERO, "k": complex(1)},
     "bytearray": bytearray(b"ab"), "nan-inside": (float("nan"),), "inf-inside": [float("inf")],
     "ellipsis": ..., "notimplemented": NotImplemented, "builtin-type": int, "builtin-func": len, "exc-alias": IOError,
+    "raw-code": _Raw("1 + 1"), "raw-call": _Raw("setattr(__import__('builtins'), 'C19_CANARY', True)"), "raw-in-tuple": (_Raw("x y"), 1), "meters": _Meters(5),
     "intenum-zero": _P.ZERO, "myint-one": _MyInt(1), "myint": _MyInt(7), "neg-zero": -0.0, "bool-in-tuple": (True, False, None),
 }
 for label, shape in SHAPES.items():
-    contract(F, "get_literal_expr", name=f"{F}:get_literal_expr[{label}]", props=["C08", "C20"],
+    contract(F, "get_literal_expr", name=f"{F}:get_literal_expr[{label}]", props=["C08", "C19", "C20"],
              params={"obj": ("const", shape)}, post=POST, clause_props=CP, consts=CONSTS,
              notes=[f"container shape {label}: {shape!r}"])
 
